@@ -64,7 +64,7 @@ def _get_weights_stub(disperser, n, width, nsigmas, value, limits, relative):
     return an EMPTY distribution); otherwise fresh symbolic (values, weights)
     of the unit's enumerated length (0 = every point cut off by the limits).
     The numerical content of a distribution is C02's subject."""
-    if disperser == "array" or int(n) < 2 or width == 0:
+    if not symx._CURRENT or disperser == "array" or int(n) < 2 or width == 0:
         return _REAL_GET_WEIGHTS(disperser, n, width, nsigmas, value, limits, relative)
     k = _GW["calls"]
     _GW["calls"] += 1
@@ -147,9 +147,11 @@ def input_prefs(ts, salt=0):
     """(const, preferred value) for every ``in.`` symbol of the terms."""
     prefs = []
     for k, (name, c) in enumerate(sorted(symx.consts_of(ts).items())):
-        if not name.startswith("in.") or not z3.is_real(c):
+        if not name.startswith(("in.", "pre.")) or not z3.is_real(c) or name.endswith("'"):
             continue
-        if name.startswith("in.w"):
+        if name.startswith("pre."):
+            val = 2.25 + 0.0625 * ((k + salt) % 11)
+        elif name.startswith("in.w"):
             val = 0.5 + 0.125 * (k % 3)
         elif "cutoff" in name:
             val = 0.0
@@ -181,3 +183,814 @@ def bits(x):
             out.append(np.asarray(o, dtype=float).tobytes())
     walk(x)
     return b"|".join(out)
+
+
+# --------------------------------------------------------------------------
+# real code: request after a polluting call vs request on fresh objects
+
+def _fmesh(mesh):
+    return [(float(v), np.asarray(d, dtype=float), np.asarray(w, dtype=float)) for v, d, w in mesh]
+
+
+def _pollution_mesh(info, mesh, salt):
+    """A different, valid, monodisperse parameter set for the same model."""
+    out = []
+    for p, (v, _d, _w) in zip(info.parameters.call_parameters, mesh):
+        dflt = float(p.default)
+        if C.is_structural(p) or p.name.endswith(("_M0", "_mtheta", "_mphi")) or p.name.startswith("up_"):
+            x = float(v)
+        elif p.name == "scale":
+            x = 2.0 + salt
+        elif p.name == "background":
+            x = 0.25 + 0.5 * salt
+        else:
+            x = C._clip_inside(dflt * (1.0 + 0.0625 * (1 + salt)) + (0.03125 if dflt == 0 else 0.0),
+                               p.limits[0], p.limits[1], dflt)
+        out.append((x, np.array([x if p.type != "orientation" else 0.0]), np.array([1.0])))
+    return out
+
+
+def _real_kernel_model(name):
+    info = core.load_model_info(name)
+    if callable(info.Iq) and info.composition is None:
+        return core.build_model(info)
+    return C.real_model(name)
+
+
+def real_kernel_request(kern, entry, mesh, cutoff, mode):
+    cd, vals, mag = details.make_kernel_args(kern, _fmesh(mesh))
+    if entry == "call_Fq":
+        return kern.Fq(cd, vals, cutoff, mag, int(mode))
+    out = kern(cd, vals, cutoff, mag)
+    res = getattr(kern, "results", None)
+    return out if res is None else (out, res())
+
+
+def real_o1_kernel(name, dim, entry, q, mesh, cutoff, mode):
+    """(reproduced, detail): the request on a fresh kernel object and on two
+    kernel objects polluted by different earlier calls, compared bit for bit."""
+    model = _real_kernel_model(name)
+    qv = [np.asarray(v, dtype=float) for v in q]
+    keep, outs, errs = [], [], []
+    for salt in (None, 0, 1):
+        kern = model.make_kernel(qv)
+        keep.append(kern)
+        try:
+            if salt is not None:
+                real_kernel_request(kern, "call_kernel", _pollution_mesh(kern.info, mesh, salt), 0.0, 0)
+            outs.append(bits(real_kernel_request(kern, entry, mesh, cutoff, mode)))
+            errs.append(None)
+        except Exception as e:
+            outs.append(("raise:" + type(e).__name__).encode())
+            errs.append(repr(e))
+    differ = len(set(outs)) > 1
+    return differ, {"fresh_vs_polluted_identical": not differ, "exceptions": errs,
+                    "first_value_of_each_run": [float(np.frombuffer(o[:8], dtype=float)[0])
+                                                if len(o) >= 8 and not o.startswith((b"raise", b"None")) else
+                                                o[:40].decode("latin1") for o in outs]}
+
+
+def real_o2_kernel(name, dim, entry, q, pars, cutoff, mono=False):
+    """(changed labels, detail): the same entry point on the real kernel with
+    plain floats; every caller-owned object compared before/after."""
+    model = _real_kernel_model(name)
+    W = Watch()
+    qv = [np.asarray(v, dtype=float) for v in q]
+    for i, a in enumerate(qv):
+        W.add("make_kernel:q_vectors[%d]" % i, a)
+    kern = model.make_kernel(qv)
+    pars = RecDict(pars)
+    W.add("%s:pars" % entry, pars)
+    exc = None
+    with watched_kernel_args(W):
+        try:
+            getattr(direct_model, entry)(kern, pars, cutoff=cutoff, mono=mono)
+        except Exception as e:
+            exc = repr(e)
+    changed = {}
+    for label, phi, diffs, log in W.check():
+        if not z3.is_true(z3.simplify(phi)):
+            changed[label] = diffs[:4]
+    return changed, {"exception": exc, "operations_on_pars": pars.log[:6]}
+
+
+def _diff_kind(diffs):
+    """Stable signature of the first difference (no values, no model names)."""
+    if not diffs:
+        return "value-changed"
+    d = diffs[0]
+    m = re.search(r"key '([^']*)' (removed|added)", d)
+    if m:
+        return "key-%s:%s" % (m.group(2), m.group(1))
+    if "array" in d or "sequence" in d:
+        return "shape-changed"
+    return "value-changed"
+
+
+# --------------------------------------------------------------------------
+# family A: compiled kernels through direct_model.call_kernel / call_Fq
+
+def dll_pars(info, dim, disp, magnetic, entry):
+    """Caller's parameter dictionary of z3 proxies (structure concrete)."""
+    pars = {}
+    p = info.parameters
+    for par in p.call_parameters[:2 + p.npars]:
+        if C.is_structural(par):
+            continue
+        pars[par.name] = symx.real("in.v." + par.name)
+    if disp:
+        pars[disp + "_pd"] = symx.real("in.pd." + disp)
+        pars[disp + "_pd_n"] = 3
+        pars[disp + "_pd_nsigma"] = symx.real("in.nsigma." + disp)
+        pars[disp + "_pd_type"] = "gaussian"
+    if magnetic:
+        for par in p.call_parameters[2 + p.npars:]:
+            keep = par.name.startswith("up_") or par.name.startswith(magnetic)
+            if keep:
+                pars[par.name] = symx.real("in.v." + par.name)
+    if entry == "call_Fq":
+        pars[RADIUS_MODE_ID] = Sym(z3.Int("in.mode"))
+    return pars
+
+
+def make_dll_kernel(model, qv):
+    """The REAL DllModel.make_kernel on the caller's q arrays (SymDll's own
+    override copies them first), then the arbitrary pre-state."""
+    kern = DllModel.make_kernel(model, qv)
+    kern._as_dtype = lambda x: x
+    for i in range(len(kern.result)):
+        kern.result[i] = Sym(z3.Real("stale!%d" % i))
+    return kern
+
+
+def sym_q(dim):
+    if dim == "1d":
+        return [symx.oarray([symx.real("in.q0"), symx.real("in.q1")])]
+    return [symx.oarray([symx.real("in.qx0")]), symx.oarray([symx.real("in.qy0")])]
+
+
+def first_pd(info, dim):
+    ps = [p.name for p in info.parameters.call_parameters[2:2 + info.parameters.npars]
+          if p.polydisperse and (dim == "2d" or p.type != "orientation")]
+    return ps[0] if ps else None
+
+
+# --------------------------------------------------------------------------
+# obligations common to all families
+
+EXPECTED_EXC = (NotImplementedError, ValueError)
+
+
+def judge(u, label, paths, o1_handler, o2_handler, sample_ctx=None, is_ref=None):
+    """O2 per path and watched object, O1 over all pairs of paths."""
+    runs, rp, failed = [], [], set()
+    u.max_cex = 4
+    for pi, p in enumerate(paths):
+        if p.cut:
+            u.error("path %d cut: %s" % (pi, p.cut))
+            continue
+        if p.exc is not None:
+            u.error("path %d: %s: %s" % (pi, type(p.exc).__name__, str(p.exc)[:300]))
+            continue
+        H = p.constraints()
+        r = p.result
+        runs.append((H, r["sig"], r["terms"], "p%d" % pi))
+        rp.append(p)
+        if pi < 2:
+            u.sample(dict(sample_ctx or {}, path=pi, result_signature=r["sig"][:120],
+                          watched=[w[0] for w in r["watch"]], notes=r.get("notes"),
+                          path_condition=[str(c)[:90] for c in p.pc
+                                          if not str(c).startswith("res!")][:6]))
+        for wlabel, phi, diffs, log in r["watch"]:
+            if wlabel in failed:
+                continue        # one replayed witness per watched object and unit is enough
+            n0 = len(u.r["cex"])
+            u.prove("O2:" + wlabel, phi, H, o2_handler(pi, wlabel, diffs, log))
+            if len(u.r["cex"]) > n0:
+                failed.add(wlabel)
+    n_state = purity.independence(u, "O1:" + label, runs, is_input, o1_handler(rp), sample=True,
+                                  is_ref=(None if is_ref is None else (lambda i: is_ref(rp[i]))))
+    u.r["max_state_symbols_in_a_path"] = max(u.r.get("max_state_symbols_in_a_path", 0), n_state)
+    if any(not p.result.get("pre_state") for p in rp):
+        u.error("%s: the harness installed no arbitrary pre-state" % label)
+    return runs
+
+
+def run_entry(fn, W, extra=None):
+    """Run the entry point; an expected refusal is a result like any other."""
+    try:
+        out = fn()
+        sig, ts = flatten(out)
+    except EXPECTED_EXC as e:
+        sig, ts = "raise:%s" % type(e).__name__, []
+    r = {"sig": sig, "terms": ts, "watch": W.check()}
+    r.update(extra or {})
+    return r
+
+
+def unit_dll(cfg):
+    name, dim, disp, length, entry, magnetic, mono = cfg
+    label = "dll/%s/%s/%s/%s%s%s" % (name, dim, entry, "%s=%d" % (disp, length) if disp else "mono",
+                                     "/magnetic=" + magnetic if magnetic else "", "/mono-flag" if mono else "")
+    u = Unit(label, timeout_ms=60000)
+    install_shims()
+    km = KModel.get(name)
+    info = km.info
+    cutoff = symx.real("in.cutoff")
+    pars0 = dll_pars(info, dim, disp, magnetic, entry)
+    nmodes = len(info.radius_effective_modes or [])
+    A = []
+    if entry == "call_Fq":
+        A = [z3.Int("in.mode") >= 0, z3.Int("in.mode") <= min(nmodes, 2)]
+    if magnetic:
+        A.append(z3.Real("in.qx0") * z3.Real("in.qx0") + z3.Real("in.qy0") * z3.Real("in.qy0") > symx.rat(1e-16))
+    sinks = {}
+
+    def fn():
+        _GW["calls"], _GW["length"] = 0, length
+        model = km.make_model()
+        W = Watch()
+        qv = sym_q(dim)
+        for i, a in enumerate(qv):
+            W.add("make_kernel:q_vectors[%d]" % i, a)
+        kern = make_dll_kernel(model, qv)
+        pars = RecDict(pars0)
+        W.add("%s:pars" % entry, pars)
+        sink = []
+        with watched_kernel_args(W, sink):
+            r = run_entry(lambda: getattr(direct_model, entry)(kern, pars, cutoff=cutoff, mono=mono), W)
+        r["mesh"] = sink[0][0] if sink else None
+        r["pre_state"] = len(kern.result)
+        r["notes"] = {"kernel_calls": list(model.calls), "interpreted_instructions": model.steps,
+                      "magnetic_kernel": bool(sink[0][1]) if sink else None}
+        return r
+
+    ex = symx.Explorer(timeout_ms=20000, max_paths=400, abstract=True, int_range=8)
+    paths = ex.explore(fn, A)
+    u.absorb(ex, paths)
+    u.reachable(label, A)
+    u.functions("sasmodels.direct_model.%s" % entry, "sasmodels.direct_model.get_mesh",
+                "sasmodels.direct_model._pop_par_weights", "sasmodels.details.make_kernel_args",
+                "sasmodels.details.make_details", "sasmodels.details.convert_magnetism",
+                "sasmodels.kerneldll.DllModel.make_kernel", "sasmodels.kernelpy.PyInput.__init__",
+                "sasmodels.kerneldll.DllKernel.__init__", "sasmodels.kerneldll.DllKernel._call_kernel",
+                "sasmodels.kernel.Kernel.Iq", "sasmodels.kernel.Kernel.Fq",
+                "%s (IR of the generated source)" % km.names[0 if dim == "1d" else 1])
+    ctx = dict(name=name, dim=dim, entry=entry, mono=mono, disp=disp, length=length, magnetic=magnetic,
+               pars0=pars0, paths=paths, family="dll")
+    judge(u, label, paths, _o1_kernel_handler(ctx), _o2_kernel_handler(ctx),
+          sample_ctx={"config": label})
+    return u.r
+
+
+def _mesh_class(mesh):
+    lens = [len(d) for _v, d, _w in mesh]
+    return "empty-mesh" if 0 in lens else "dispersed" if max(lens) > 1 else "mono"
+
+
+def _o1_kernel_handler(ctx):
+    """Counterexample to O1 at kernel level -> mesh-level replay (the body of
+    call_kernel / call_Fq after get_mesh) on the real kernel objects."""
+    def factory(rp):
+        def mk(i, j, hyps, phi):
+            def handler(m):
+                m2 = generic_model(hyps, [z3.Not(phi)], input_prefs(hyps)) or m
+                best = None
+                for mm in (m2, m):
+                    mesh = concretize(mm, rp[i].result["mesh"])
+                    q = concretize(mm, ctx.get("q") or sym_q(ctx["dim"]))
+                    cut = float(symx.model_float(mm, z3.Real("in.cutoff")))
+                    mode = int(symx.model_float(mm, z3.Int("in.mode"))) if ctx["entry"] == "call_Fq" else 0
+                    rep, detail = real_o1_kernel(ctx["name"], ctx["dim"], ctx["entry"], q, mesh, cut, mode)
+                    best = (rep, detail, mesh, q, cut, mode)
+                    if rep:
+                        break
+                rep, detail, mesh, q, cut, mode = best
+                state = purity.state_symbols(hyps + [phi], is_input)
+                return {"reproduced": bool(rep),
+                        "key": "C11/O1/%s/%s/%s" % (ctx["family"], ctx["entry"], _mesh_class(mesh)),
+                        "what": "%s %s %s: the result of the same request differs between a fresh kernel object "
+                                "and one that served an earlier call (%s); pre-state symbols involved: %s"
+                                % (ctx["name"], ctx["dim"], ctx["entry"], _mesh_class(mesh), state[:6]),
+                        "inputs": {"replay": "kernel", "model": ctx["name"], "dim": ctx["dim"], "entry": ctx["entry"],
+                                   "q": [list(map(float, v)) for v in q], "cutoff": cut, "mode": mode,
+                                   "mesh": [[float(v), list(map(float, d)), list(map(float, w))] for v, d, w in mesh]},
+                        "detail": detail, "block": None}
+            return handler
+        return mk
+    return factory
+
+
+def generic_pars(info, pars0, m=None):
+    """Plain-float version of the caller's dictionary: generic valid values
+    (model defaults, perturbed) for reals, the solver's value for integers."""
+    by = {p.name: p for p in info.parameters.call_parameters}
+    out = {}
+    for k, (key, v) in enumerate(pars0.items()):
+        if not isinstance(v, Sym):
+            out[key] = v
+        elif z3.is_int(v.t):
+            out[key] = int(symx.model_float(m, v.t)) if m is not None else 1
+        elif key.endswith("_pd"):
+            out[key] = 0.125
+        elif key.endswith("_pd_nsigma"):
+            out[key] = 2.0
+        elif key.endswith("_M0"):
+            out[key] = 1.5
+        elif key in by:
+            p = by[key]
+            d = float(p.default)
+            out[key] = C._clip_inside(d * (1 + 0.015625 * (k % 5)) if d else 0.0625, p.limits[0], p.limits[1], d)
+        else:
+            out[key] = 0.25
+    return out
+
+
+def _o2_kernel_handler(ctx):
+    def mk(pi, wlabel, diffs, log):
+        def handler(m):
+            info = core.load_model_info(ctx["name"])
+            pars = generic_pars(info, ctx["pars0"], m)
+            q = [[0.0125, 0.125]] if ctx["dim"] == "1d" else [[0.0125], [0.03125]]
+            changed, detail = real_o2_kernel(ctx["name"], ctx["dim"], ctx["entry"], q, pars, 0.0, ctx["mono"])
+            rep = wlabel in changed
+            kind = _diff_kind(changed.get(wlabel) or diffs)
+            return {"reproduced": bool(rep), "key": "C11/O2/%s/%s" % (wlabel, kind),
+                    "what": "%s(%s kernel, pars) modifies the caller's %s: %s (operations recorded on the "
+                            "caller's dict: %s)" % (ctx["entry"], ctx["name"], wlabel.split(":")[1],
+                                                    (changed.get(wlabel) or diffs)[:3], log[:4]),
+                    "inputs": {"replay": "o2-kernel", "model": ctx["name"], "dim": ctx["dim"],
+                               "entry": ctx["entry"], "q": q, "pars": pars, "mono": ctx["mono"], "watch": wlabel},
+                    "detail": detail, "block": None}
+        return handler
+    return mk
+
+
+# --------------------------------------------------------------------------
+# family B: pure-python kernels (kernelpy.PyModel / PyKernel / _loops)
+
+PYSHELL = '''
+r"""Synthetic pure-python shell model (C11 harness): exercises the dispersity
+loop of kernelpy._loops, which no builtin python model reaches."""
+from numpy import inf, pi, sin, cos
+name = "c11_pyshell"
+title = "python shell"
+description = "python shell"
+category = "shape:sphere"
+parameters = [["sld", "1e-6/Ang^2", 1, [-inf, inf], "sld", ""],
+              ["radius", "Ang", 50, [0, inf], "volume", ""],
+              ["thickness", "Ang", 10, [0, inf], "volume", ""]]
+def form_volume(radius, thickness):
+    return 4.0/3.0*pi*(radius + thickness)**3
+def shell_volume(radius, thickness):
+    return 4.0/3.0*pi*((radius + thickness)**3 - radius**3)
+def radius_effective(mode, radius, thickness):
+    return radius + thickness if mode == 1 else radius
+radius_effective_modes = ["outer radius", "core radius"]
+def Iq(q, sld, radius, thickness):
+    qr = q*(radius + thickness)
+    return (sld*shell_volume(radius, thickness)*3.0*(sin(qr) - qr*cos(qr))/qr**3)**2
+Iq.vectorized = True
+'''
+
+
+def py_model_name(name):
+    if name != "c11_pyshell":
+        return name
+    import os
+    from vlib import scratch
+    path = os.path.join(scratch(), "c11_pyshell.py")
+    if not os.path.exists(path):
+        tmp = "%s.%d" % (path, os.getpid())
+        with open(tmp, "w") as f:
+            f.write(PYSHELL)
+        os.replace(tmp, path)
+    return path
+
+
+def _flat_args(args):
+    out = []
+    for a in args:
+        out.extend(np.asarray(a, dtype=object).ravel().tolist())
+    return out
+
+
+def py_stub_info(info):
+    """Copy of the model info whose python leaves are uninterpreted functions
+    of the CURRENT contents of their argument views."""
+    info2 = copy.copy(info)
+
+    def mk(fname, nlead):
+        def f(*args):
+            lead, rest = args[:nlead], _flat_args(args[nlead:])
+            if nlead and isinstance(lead[0], np.ndarray) and lead[0].ndim == 1:
+                n = len(lead[0])
+                return symx.oarray([symx.uf(fname, *([l[i] for l in lead] + rest)) for i in range(n)])
+            return symx.uf(fname, *(list(lead) + rest))
+        f.vectorized = True
+        return f
+
+    info2.Iq = mk("Iq", 1)
+    info2.Iqxy = mk("Iqxy", 2) if callable(getattr(info, "Iqxy", None)) else None
+    for nm, nlead in (("form_volume", 0), ("shell_volume", 0), ("radius_effective", 1)):
+        if callable(getattr(info, nm, None)):
+            setattr(info2, nm, mk(nm, nlead))
+    return info2
+
+
+def unit_py(cfg):
+    name, dim, disp, length, entry, magnetic = cfg
+    label = "py/%s/%s/%s/%s%s" % (name, dim, entry, "%s=%d" % (disp, length) if disp else "mono",
+                                  "/magnetic=" + magnetic if magnetic else "")
+    u = Unit(label, timeout_ms=60000)
+    install_shims()
+    path = py_model_name(name)
+    info = core.load_model_info(path)
+    cutoff = symx.real("in.cutoff")
+    pars0 = dll_pars(info, dim, disp, magnetic, entry)
+    nmodes = len(info.radius_effective_modes or [])
+    A = [z3.Int("in.mode") >= 0, z3.Int("in.mode") <= min(nmodes, 2)] if entry == "call_Fq" else []
+
+    def fn():
+        _GW["calls"], _GW["length"] = 0, length
+        model = kernelpy.PyModel(py_stub_info(info))
+        W = Watch()
+        qv = sym_q(dim)
+        for i, a in enumerate(qv):
+            W.add("make_kernel:q_vectors[%d]" % i, a)
+        kern = model.make_kernel(qv)          # real PyInput / PyKernel.__init__ (np.empty -> arbitrary)
+        kern.dtype = OBJ
+        kern.result = purity._fresh_array(dim == "1d" and 6 or 5, "mem")
+        pars = RecDict(pars0)
+        W.add("%s:pars" % entry, pars)
+        sink = []
+        with watched_kernel_args(W, sink):
+            r = run_entry(lambda: getattr(direct_model, entry)(kern, pars, cutoff=cutoff), W)
+        r["mesh"] = sink[0][0] if sink else None
+        r["pre_state"] = symx.current()._fresh
+        r["notes"] = {"parameter_vector_after": [str(term(x)) for x in kern._parameter_vector][:4],
+                      "arbitrary_cells_installed": r["pre_state"]}
+        return r
+
+    ex = symx.Explorer(timeout_ms=20000, max_paths=400, int_range=8)
+    paths = ex.explore(fn, A)
+    u.absorb(ex, paths)
+    u.reachable(label, A)
+    u.functions("sasmodels.kernelpy.PyModel.make_kernel", "sasmodels.kernelpy.PyInput.__init__",
+                "sasmodels.kernelpy.PyKernel.__init__", "sasmodels.kernelpy.PyKernel._call_kernel",
+                "sasmodels.kernelpy._loops", "sasmodels.kernelpy._create_default_functions")
+    ctx = dict(name=path, dim=dim, entry=entry, mono=False, disp=disp, length=length, magnetic=magnetic,
+               pars0=pars0, paths=paths, family="py")
+    judge(u, label, paths, _o1_kernel_handler(ctx), _o2_kernel_handler(ctx), sample_ctx={"config": label})
+    return u.r
+
+
+# --------------------------------------------------------------------------
+# family C: product and mixture kernels over recording stub leaves
+
+def install_composite_prestate(kern, tag="k"):
+    """Arbitrary retained state on every object of a kernel tree: the lazy
+    ``results`` of the real ProductKernel / MixtureKernel objects, the result
+    buffers of the leaves.  Returns the number of symbols installed."""
+    from sasmodels.product import ProductKernel
+    from sasmodels.mixture import MixtureKernel
+    n = 0
+    if isinstance(kern, (ProductKernel, MixtureKernel)):
+        s = Sym(z3.Real("stale.results!%s" % tag))
+        kern.results = lambda s=s: {"stale intermediate": (symx.oarray([s]), symx.oarray([s]))}
+        n += 1
+        kids = [kern.p_kernel, kern.s_kernel] if isinstance(kern, ProductKernel) else list(kern.kernels)
+        for i, k in enumerate(kids):
+            n += install_composite_prestate(k, "%s%d" % (tag, i))
+    else:
+        nq = kern.q_input.nq
+        kern.result = symx.oarray([Sym(z3.Real("stale!%s!%d" % (tag, i))) for i in range(2 * nq + 4)])
+        n += 2 * nq + 4
+    return n
+
+
+def unit_comp(cfg):
+    expr, dim, disp, concrete, mag, nonzero = cfg
+    label = "comp/%s/%s/%s%s%s" % (expr, dim, ",".join("%s=%d" % kv for kv in disp) or "mono",
+                                   "".join("/%s=%g" % kv for kv in sorted(concrete.items())),
+                                   "/magnetic" if mag else "")
+    u = Unit(label, timeout_ms=60000)
+    install_shims()
+    info = core.load_model_info(expr)
+    nleaves = C.count_leaves(info)
+    m0 = [p.name for p in info.parameters.call_parameters if p.name.endswith("_M0")]
+    m0_sym = set(m0[:1]) if (mag and m0) else set()
+    mesh, by = C.sym_mesh(info, dict(disp), concrete, m0_sym, tag="in.")
+    cutoff = symx.real("in.cutoff")
+    A = []
+    if nonzero:
+        A = [z3.Real("L%d.%s" % (l, k)) != 0 for l in range(nleaves) for k in ("tw", "sv")]
+
+    def fn():
+        rec = []
+        model = C.stub_build(info, list(range(nleaves)), rec)
+        W = Watch()
+        qv = sym_q(dim)
+        for i, a in enumerate(qv):
+            W.add("make_kernel:q_vectors[%d]" % i, a)
+        kern = model.make_kernel(qv)
+        npre = install_composite_prestate(kern)
+        W.add("make_kernel_args:mesh", mesh)
+        cd, vals, is_mag = details.make_kernel_args(kern, mesh)
+        W.add("kernel():values", vals)
+        W.add("kernel():call_details", cd)
+
+        def entry():
+            out = kern(cd, vals, cutoff, is_mag)
+            return out, kern.results()
+        r = run_entry(entry, W)
+        r["mesh"], r["pre_state"] = mesh, npre
+        r["notes"] = {"leaf_calls": len(rec), "magnetic": bool(is_mag)}
+        return r
+
+    ex = symx.Explorer(timeout_ms=20000, max_paths=600)
+    paths = ex.explore(fn, A)
+    u.absorb(ex, paths)
+    u.reachable(label, A)
+    u.functions("sasmodels.core.build_model (composition)", "sasmodels.product.ProductModel.make_kernel",
+                "sasmodels.product.ProductKernel.__init__", "sasmodels.product.ProductKernel.Iq",
+                "sasmodels.product._intermediates", "sasmodels.mixture.MixtureModel.make_kernel",
+                "sasmodels.mixture.MixtureKernel.Iq", "sasmodels.mixture._MixtureParts",
+                "sasmodels.mixture._intermediates", "sasmodels.details.make_kernel_args")
+    ctx = dict(name=expr, dim=dim, entry="call_kernel", mono=False, paths=paths, family="composite",
+               q=sym_q(dim))
+    judge(u, label, paths, _o1_kernel_handler(ctx), _o2_comp_handler(ctx), sample_ctx={"config": label})
+    return u.r
+
+
+def real_o2_mesh(expr, dim, q, mesh, cutoff):
+    """Real composite kernel, plain floats: mesh / values / call details / q
+    before and after make_kernel_args + kernel()."""
+    model = C.real_model(expr)
+    W = Watch()
+    qv = [np.asarray(v, dtype=float) for v in q]
+    for i, a in enumerate(qv):
+        W.add("make_kernel:q_vectors[%d]" % i, a)
+    kern = model.make_kernel(qv)
+    mesh = _fmesh(mesh)
+    W.add("make_kernel_args:mesh", mesh)
+    cd, vals, mag = details.make_kernel_args(kern, mesh)
+    W.add("kernel():values", vals)
+    W.add("kernel():call_details", cd)
+    exc = None
+    try:
+        kern(cd, vals, cutoff, mag)
+    except Exception as e:
+        exc = repr(e)
+    changed = {lab: diffs[:4] for lab, phi, diffs, _l in W.check() if not z3.is_true(z3.simplify(phi))}
+    return changed, {"exception": exc}
+
+
+def _o2_comp_handler(ctx):
+    def mk(pi, wlabel, diffs, log):
+        def handler(m):
+            p = ctx["paths"][pi]
+            hyps = p.constraints()
+            m2 = generic_model(hyps, [], input_prefs(hyps)) or m
+            mesh = concretize(m2, p.result["mesh"])
+            q = concretize(m2, ctx["q"])
+            changed, detail = real_o2_mesh(ctx["name"], ctx["dim"], q, mesh, 0.0)
+            rep = wlabel in changed
+            return {"reproduced": bool(rep),
+                    "key": "C11/O2/%s/%s/%s" % (ctx["family"], wlabel, _diff_kind(changed.get(wlabel) or diffs)),
+                    "what": "%s kernel call modifies the caller's %s: %s" % (
+                        ctx["name"], wlabel, (changed.get(wlabel) or diffs)[:3]),
+                    "inputs": {"replay": "o2-mesh", "model": ctx["name"], "dim": ctx["dim"],
+                               "q": [list(map(float, v)) for v in q], "watch": wlabel,
+                               "mesh": [[float(v), list(map(float, d)), list(map(float, w))] for v, d, w in mesh]},
+                    "detail": detail, "block": None}
+        return handler
+    return mk
+
+
+# --------------------------------------------------------------------------
+# family D: SasviewModel (class-level compiled-model cache, params/dispersion dicts)
+
+@contextlib.contextmanager
+def patched_build(factory, log):
+    """core.build_model (as seen from sasview_model / direct_model) -> SymDll."""
+    real = core.build_model
+
+    def build(info, *a, **kw):
+        log.append(info.id)
+        return factory(info)
+    core.build_model = build
+    try:
+        yield
+    finally:
+        core.build_model = real
+
+
+SV_OPS = {0: "fresh class (no compiled model cached)",
+          1: "same instance evaluated before with other parameter values, then reset with setParam",
+          2: "another instance of the class evaluated before (class-level _model cached)",
+          3: "request made on a clone() of an instance that was evaluated before"}
+
+
+def sasview_set(m, req):
+    for k, v in req["params"].items():
+        m.setParam(k, v)
+    for par, d in req["disp"].items():
+        for k, v in d.items():
+            m.setParam("%s.%s" % (par, k), v)
+    m.cutoff = req["cutoff"]
+
+
+def sasview_request(m, req, q, entry):
+    if entry == "evalDistribution":
+        return m.evalDistribution(q[0] if len(q) == 1 else list(q))
+    result, lazy = m.calculate_Iq(*q)
+    return result, lazy()
+
+
+def sasview_prefix(Model, op, req, pre, q, entry):
+    """The operations that precede the request (structural pre-state)."""
+    if op == 0:
+        return Model()
+    if op == 1:
+        m = Model()
+        sasview_set(m, pre)
+        sasview_request(m, pre, q, entry)
+        return m
+    other = Model()
+    sasview_set(other, pre)
+    sasview_request(other, pre, q, entry)
+    return Model() if op == 2 else other.clone()
+
+
+def sasview_reqs(info, dim, disp, magnetic, tag):
+    pars = {}
+    p = info.parameters
+    for par in p.user_parameters({}, is2d=True):
+        if C.is_structural(par):
+            continue
+        is_mag = par.name.endswith(("_M0", "_mtheta", "_mphi")) or par.name.startswith("up_")
+        if par.type == "orientation" and dim == "1d":
+            continue
+        if is_mag and not (magnetic and (par.name.startswith("up_") or par.name.startswith(magnetic))):
+            continue
+        pars[par.name] = symx.real("%sv.%s" % (tag, par.name))
+    d = {}
+    if disp:
+        d[disp] = {"width": symx.real("%spd.%s" % (tag, disp)), "npts": 3,
+                   "nsigmas": symx.real("%snsigma.%s" % (tag, disp))}
+    return {"params": pars, "disp": d, "cutoff": symx.real("%scutoff" % tag) if tag == "in." else 0.0}
+
+
+def unit_sasview(cfg):
+    name, dim, disp, length, entry, magnetic = cfg
+    from sasmodels import sasview_model
+    label = "sasview/%s/%s/%s/%s%s" % (name, dim, entry, "%s=%d" % (disp, length) if disp else "mono",
+                                       "/magnetic=" + magnetic if magnetic else "")
+    u = Unit(label, timeout_ms=60000)
+    install_shims()
+    km = KModel.get(name)
+    info = km.info
+    req = sasview_reqs(info, dim, disp, magnetic, "in.")
+    pre = sasview_reqs(info, dim, None, None, "pre.")
+    op_t = z3.Int("pre.op")
+    A = [op_t >= 0, op_t <= 3]
+    by = {par.name: par for par in info.parameters.call_parameters}
+    for k, v in pre["params"].items():          # earlier calls used parameter values inside the limits
+        lo, hi = by[k].limits
+        A += [c for c in (v.t >= symx.rat(lo) if np.isfinite(lo) else None,
+                          v.t <= symx.rat(hi) if np.isfinite(hi) else None) if c is not None]
+
+    def fn():
+        _GW["calls"], _GW["length"] = 0, length
+        builds = []
+        Model = sasview_model.make_model_from_info(info)      # a new class: _model is None
+        with patched_build(lambda i: km.make_model(), builds):
+            op = int(Sym(op_t))
+            m = sasview_prefix(Model, op, req, pre, sym_q(dim), entry)
+            sasview_set(m, req)
+            W = Watch()
+            q = sym_q(dim)
+            for i, a in enumerate(q):
+                W.add("%s:q[%d]" % (entry, i), a)
+            W.add("%s:self.params" % entry, m.params)
+            W.add("%s:self.dispersion" % entry, m.dispersion)
+            sink = []
+            with watched_kernel_args(W, sink):
+                r = run_entry(lambda: sasview_request(m, req, q, entry), W)
+        r["mesh"] = sink[-1][0] if sink else None
+        r["pre_state"] = 1 + op
+        r["notes"] = {"prefix": SV_OPS[op], "build_model_calls": len(builds),
+                      "kernel_calls": len(Model._model.calls) if Model._model is not None else 0}
+        return r
+
+    ex = symx.Explorer(timeout_ms=20000, max_paths=600, abstract=True, int_range=8)
+    paths = ex.explore(fn, A)
+    u.absorb(ex, paths)
+    u.reachable(label, A)
+    u.functions("sasmodels.sasview_model.make_model_from_info", "sasmodels.sasview_model.SasviewModel.__init__",
+                "sasmodels.sasview_model.SasviewModel.setParam", "sasmodels.sasview_model.SasviewModel.clone",
+                "sasmodels.sasview_model.SasviewModel.calculate_Iq", "sasmodels.sasview_model.SasviewModel._calculate_Iq",
+                "sasmodels.sasview_model.SasviewModel.evalDistribution", "sasmodels.sasview_model.SasviewModel._get_weights",
+                "sasmodels.weights.Dispersion.get_weights (trivial distributions, limits test)")
+    ctx = dict(name=name, dim=dim, entry=entry, req=req, paths=paths, family="sasview")
+    judge(u, label, paths, _o1_sasview_handler(ctx), _o2_sasview_handler(ctx), sample_ctx={"config": label},
+          is_ref=lambda p: p.result["pre_state"] == 1)
+    return u.r
+
+
+def real_sasview(name, entry, req, pre, q, ops=(0, 1, 2, 3)):
+    """The request on the real SasviewModel after each prefix of operations
+    (new class object per run, so each starts without a compiled model)."""
+    from sasmodels import sasview_model
+    outs, errs = [], []
+    qv = [np.asarray(v, dtype=float) for v in q]
+    for op in ops:
+        Model = sasview_model._make_standard_model(name)
+        try:
+            m = sasview_prefix(Model, op, req, pre, qv, entry)
+            sasview_set(m, req)
+            outs.append(bits(sasview_request(m, req, qv, entry)))
+            errs.append(None)
+        except Exception as e:
+            outs.append(("raise:" + type(e).__name__).encode())
+            errs.append(repr(e))
+    return outs, errs
+
+
+def _sv_conc(ctx, mm, pre_generic=True):
+    req = concretize(mm, ctx["req"])
+    info = core.load_model_info(ctx["name"])
+    pre = {"params": {}, "disp": {}, "cutoff": 0.0}
+    for par in info.parameters.user_parameters({}, is2d=True):
+        if par.name in req["params"]:
+            d = float(par.default)
+            pre["params"][par.name] = C._clip_inside(d * 1.0625 + (0.03125 if d == 0 else 0), par.limits[0],
+                                                     par.limits[1], d)
+    q = [[0.0125, 0.125]] if ctx["dim"] == "1d" else [[0.0125], [0.03125]]
+    return req, pre, q
+
+
+def _o1_sasview_handler(ctx):
+    def factory(rp):
+        def mk(i, j, hyps, phi):
+            def handler(m):
+                m2 = generic_model(hyps, [z3.Not(phi)], input_prefs(hyps)) or m
+                for mm in (m2, m):
+                    req, pre, q = _sv_conc(ctx, mm)
+                    outs, errs = real_sasview(ctx["name"], ctx["entry"], req, pre, q)
+                    rep = len(set(outs)) > 1
+                    if rep:
+                        break
+                ops = [rp[i].result["notes"]["prefix"], rp[j].result["notes"]["prefix"]]
+                mesh = concretize(mm, rp[i].result["mesh"]) if rp[i].result["mesh"] is not None else []
+                return {"reproduced": bool(rep),
+                        "key": "C11/O1/sasview/%s/%s" % (ctx["entry"], _mesh_class(mesh) if mesh else "no-mesh"),
+                        "what": "SasviewModel(%s).%s: the same request gives different results after different "
+                                "histories (%s | %s)" % (ctx["name"], ctx["entry"], ops[0], ops[1]),
+                        "inputs": {"replay": "sasview", "model": ctx["name"], "dim": ctx["dim"], "entry": ctx["entry"],
+                                   "req": req, "pre": pre, "q": q},
+                        "detail": {"exceptions": errs, "identical": not rep}, "block": None}
+            return handler
+        return mk
+    return factory
+
+
+def real_o2_sasview(name, entry, req, q):
+    from sasmodels import sasview_model
+    Model = sasview_model._make_standard_model(name)
+    m = Model()
+    sasview_set(m, req)
+    W = Watch()
+    qv = [np.asarray(v, dtype=float) for v in q]
+    for i, a in enumerate(qv):
+        W.add("%s:q[%d]" % (entry, i), a)
+    W.add("%s:self.params" % entry, m.params)
+    W.add("%s:self.dispersion" % entry, m.dispersion)
+    exc = None
+    with watched_kernel_args(W):
+        try:
+            sasview_request(m, req, qv, entry)
+        except Exception as e:
+            exc = repr(e)
+    changed = {lab: diffs[:4] for lab, phi, diffs, _l in W.check() if not z3.is_true(z3.simplify(phi))}
+    return changed, {"exception": exc}
+
+
+def _o2_sasview_handler(ctx):
+    def mk(pi, wlabel, diffs, log):
+        def handler(m):
+            hyps = ctx["paths"][pi].constraints()
+            m2 = generic_model(hyps, [], input_prefs(hyps)) or m
+            req, pre, q = _sv_conc(ctx, m2)
+            changed, detail = real_o2_sasview(ctx["name"], ctx["entry"], req, q)
+            rep = wlabel in changed
+            return {"reproduced": bool(rep),
+                    "key": "C11/O2/sasview/%s/%s" % (wlabel, _diff_kind(changed.get(wlabel) or diffs)),
+                    "what": "SasviewModel(%s).%s modifies %s: %s" % (ctx["name"], ctx["entry"], wlabel,
+                                                                     (changed.get(wlabel) or diffs)[:3]),
+                    "inputs": {"replay": "o2-sasview", "model": ctx["name"], "dim": ctx["dim"],
+                               "entry": ctx["entry"], "req": req, "q": q, "watch": wlabel},
+                    "detail": detail, "block": None}
+        return handler
+    return mk
